@@ -1,13 +1,14 @@
 (* C03 — the Memfs namespace stays a well-formed tree after any history, even failed calls.
    WF (Memfs/Wf.v) is the statement's conjunction over the three indexes of the mirror state.
    Proved here: WF holds initially and is preserved by every operation of the alphabet except
-   move_p, for all arguments and whether the call succeeds or fails; the boolean checker wf_b
+   move_p (copy, chmod, chown and mkfile_m included), for all arguments and whether the call succeeds
+   or fails, hence after every history without move_p; the boolean checker wf_b
    (extracted and evaluated on every state snapshot the correspondence runs produce, including the
    states after move_p) is sound.  PARTIAL: WF-preservation of the move_p worklist loop is not yet
    a theorem (see DESIGN §7 C03); it is covered by wf_b on every explored state. *)
 From stdpp Require Import gmap.
 From Coq Require Import NArith.
-From RV Require Import Base.Str Path.Expand Memfs.State Memfs.Ops Memfs.Step Memfs.Wf Memfs.WfB.
+From RV Require Import Base.Str Path.Expand Memfs.State Memfs.Ops Memfs.Step Memfs.Wf Memfs.WfMore Memfs.WfB.
 
 Theorem C03_wf_init : WF mfs_init.
 Proof. exact wf_init. Qed.
@@ -17,6 +18,16 @@ Theorem C03_wf_step_partial : forall env m o m' r,
   WF m -> is_move o = false -> step env m o = Done (m', r) -> WF m'.
 Proof. exact wf_step_nonmove. Qed.
 Print Assumptions C03_wf_step_partial.
+
+Theorem C03_wf_step_all_but_move_p : forall env m o m' r,
+  WF m -> is_move_p o = false -> step env m o = Done (m', r) -> WF m'.
+Proof. exact wf_step_nonmovep. Qed.
+Print Assumptions C03_wf_step_all_but_move_p.
+
+Theorem C03_wf_history : forall env os m m', WF m ->
+  forallb (fun o => negb (is_move_p o)) os = true -> run_ops env m os = Some m' -> WF m'.
+Proof. exact wf_history. Qed.
+Print Assumptions C03_wf_history.
 
 Theorem C03_add_wf : forall m e, WF m -> fresh e -> WF (add m e).1.
 Proof. exact add_wf. Qed.
